@@ -557,9 +557,14 @@ func (hm *HandshakeManager) unlockedDeleteHostInfo(hostinfo *HostInfo) {
 		hm.vpnIps = map[netip.Addr]*HandshakeHostInfo{}
 	}
 
-	delete(hm.indexes, hostinfo.localIndexId)
-	if len(hm.indexes) == 0 {
-		hm.indexes = map[uint32]*HandshakeHostInfo{}
+	// A pending hostinfo can be deleted more than once (a timer or packet handler that resolved it before it was
+	// removed, a recv_error for an established tunnel). By then its local index may have been handed to a newer
+	// handshake, so, like the vpnIps entries above, only drop the entry if it still belongs to this hostinfo.
+	if cur, ok := hm.indexes[hostinfo.localIndexId]; ok && cur.hostinfo == hostinfo {
+		delete(hm.indexes, hostinfo.localIndexId)
+		if len(hm.indexes) == 0 {
+			hm.indexes = map[uint32]*HandshakeHostInfo{}
+		}
 	}
 
 	if hm.l.Enabled(context.Background(), slog.LevelDebug) {
